@@ -303,13 +303,25 @@ def mv_calls(draw, n):
     return out
 
 
+def _draw_chunked(strategy_of, n, chunk, seed, *parts):
+    """n calls drawn in chunks (one Hypothesis example cannot hold more than ~1500 calls); the first chunk uses the
+    plain seed parts so that the quick tier (one chunk) draws what it always drew"""
+    out = []
+    k = 0
+    while len(out) < n:
+        m = min(chunk, n - len(out))
+        out += hyp.draw_many(strategy_of(m), 2, seed, *(parts if k == 0 else parts + (k,)))[1]
+        k += 1
+    return out
+
+
 def _mv_shard(arg):
     seed, shard, ncalls = arg
     tree.activate_view()
     part = harness.Part()
     outdir = os.path.join(tree.workdir(), "c36", "mv%d" % shard)
     name = "c36mv_%d" % shard
-    calls = hyp.draw_many(mv_calls(ncalls), 2, seed, "c36mv", shard)[1]
+    calls = _draw_chunked(mv_calls, ncalls, 1000, seed, "c36mv", shard)
     try:
         so = cybuild.build(MV_SRC, name, os.path.join(outdir, name), ext=".pyx", sanitize=True)
     except (cybuild.CythonError, cybuild.CCError) as e:
@@ -357,7 +369,7 @@ def _kernel_shard(arg):
     part = harness.Part()
     outdir = os.path.join(tree.workdir(), "c36", "k%d" % shard)
     name = "c36k_%d" % shard
-    calls = hyp.draw_many(kernel_calls(ncalls), 2, seed, "c36k", shard)[1]
+    calls = _draw_chunked(kernel_calls, ncalls, 1200, seed, "c36k", shard)
     # deterministic boundary sweep first: every kernel with its first few values on each axis
     items = [{"src": KERNEL_SRC, "cases": [{"expr": c} for c in calls], "meta": None}]
     res = diffmod.run_batch(items, name, outdir, header=KERNEL_HEADER, sanitize=True, timeout=900)
